@@ -22,14 +22,18 @@ def val(d):
     return math.ldexp(d[0], d[1])
 
 
-def grid_coord(rng, span=2.0, frac_bits=4):
-    """Coordinate on a binary grid in [-span, span]."""
+def grid_coord(rng, span=2.0, frac_bits=None):
+    """Coordinate in [-span, span]: a generic double with a 24-bit mantissa (so that the rounding errors of ordinary
+    inputs occur: with short mantissas sums and products are exact and cancellation defects stay invisible), or a point of
+    a binary grid if frac_bits is given (exactly representable distances)."""
+    if frac_bits is None:
+        return dyadic(rng.uniform(-span, span), 24)
     n = int(span * (1 << frac_bits))
     k = rng.randint(-n, n)
     return dyadic(k / (1 << frac_bits), 30) if k else [0, 0]
 
 
-def center(rng, span=2.0, frac_bits=4):
+def center(rng, span=2.0, frac_bits=None):
     return [grid_coord(rng, span, frac_bits) for _ in range(3)]
 
 
@@ -37,7 +41,7 @@ def exponent(rng, lo, hi, bits):
     return dyadic(math.exp(rng.uniform(math.log(lo), math.log(hi))), bits)
 
 
-def coeff(rng, bits=8):
+def coeff(rng, bits=16):
     c = rng.uniform(0.1, 1.5) * rng.choice([1, 1, 1, -1])
     return dyadic(c, bits)
 
@@ -47,7 +51,7 @@ def exp_cap(l):
     return 1.0e5 * 10.0 ** (-l)
 
 
-def shell(rng, l, K=None, M=None, typ=None, cen=None, lo=0.02, hi=None, bits=10, span=2.0):
+def shell(rng, l, K=None, M=None, typ=None, cen=None, lo=0.02, hi=None, bits=24, span=2.0):
     K = K or rng.randint(1, 4)
     M = M or rng.randint(1, 3)
     typ = typ or rng.choice(["cartesian", "spherical"])
@@ -78,7 +82,7 @@ def rng_for(seed, *tags):
 
 def far_origin(rng):
     """A frame origin tens of bohr away from the coordinate origin (exactly representable)."""
-    return [dyadic(rng.choice([-1, 1]) * rng.choice([24.0, 37.5, 52.25, 64.0, 96.5]), 30) for _ in range(3)]
+    return [dyadic(rng.choice([-1, 1]) * (rng.choice([24.0, 37.5, 52.25, 64.0, 96.5]) + rng.uniform(-0.5, 0.5)), 30) for _ in range(3)]
 
 
 def add(c1, c2):
@@ -91,6 +95,8 @@ def add(c1, c2):
         while d > 1:
             d //= 2
             e -= 1
+        if abs(n) >= 1 << 30:            # keep mantissas inside TLC's 32-bit integers (the rounded sum IS the coordinate)
+            n, e = dyadic(float(v), 30)
         out.append([n, e])
     return out
 
